@@ -331,6 +331,39 @@ def attempt (repl : Str → Str) (u : Upstream) (o : Request) : Request :=
 def forward (hop : List Str) (repl : Str → Str) (u : Upstream) (r : Request) : Request :=
   attempt repl u (createUpstreamRequest hop r)
 
+/-! ### body and framing of the outgoing request -/
+
+/-- `requiresBuffering`: the body is read into memory (`newBufferedBody`) and rewound before every
+attempt exactly when the request may be retried on another backend -/
+def requiresBuffering (hostCount tryDuration : Nat) : Bool := decide (hostCount > 1) && tryDuration != 0
+
+/-- The body handed to the transport: nil when Content-Length is 0, else the client's bytes —
+read from the connection as they come (streamed) or from the buffer; `ContentLength` and
+`TransferEncoding` of the request are not touched by either path. -/
+def outgoingBody (buffered : Bool) (r : Request) : Option Str :=
+  if r.contentLength == 0 then none
+  else if buffered then r.body.map (fun b => b) else r.body
+
+/-- how the outgoing request is framed on the wire -/
+inductive Framing where
+  /-- no body: `Content-Length: 0` or no length at all -/
+  | none
+  | length (n : Nat)
+  | chunked
+deriving Repr, DecidableEq
+
+/-- net/http's choice (transfer writer of `http.Transport`) for a request with the given
+ContentLength and Body: a declared length is sent as Content-Length; an unknown length (-1, which
+the incoming request only has with `TransferEncoding: chunked`, carried over to the outgoing one)
+as chunked coding, also when the body turns out empty. -/
+def wireFraming (o : Request) : Framing :=
+  match o.body with
+  | Option.none => .none
+  | some _ =>
+    if o.contentLength > 0 then .length o.contentLength.toNat
+    else if o.contentLength < 0 then .chunked
+    else .none
+
 /-- What the transports of two successive attempts are handed when the first backend fails and the
 request is retried on a second one: `Proxy.ServeHTTP` restores URL and headers of the outgoing
 request (as `createUpstreamRequest` made it) before every attempt after the first. -/
